@@ -129,6 +129,9 @@ PROPS["C02"] = {
     "min_evals": {"quick": 4000, "thorough": 200000},
     "legs": [
         Leg("stream", "c02", "^TestStream$", checks=(3000, 120000), shards=(2, 16), tests=["stream"]),
+        Leg("parallel", "c02", "^TestParallel$", engine="sched", checks=(400, 8000), shards=(2, 16), tests=["parallel"], replay_attempts=5),
+        Leg("parallel-race", "c02", "^TestParallel$", engine="sched", race=True, checks=(100, 2000), shards=(2, 8), tests=["parallel"], replay_attempts=5),
+        Leg("long-silence", "c02", "^TestLongSilence$", engine="sched", checks=(1, 3), shards=(3, 6), tests=["long-silence"]),
         Leg("stream-race", "c02", "^TestStream$", race=True, checks=(600, 25000), shards=(2, 16), tests=["stream"]),
         Leg("stream-yield-race", "c02", "^TestStream$", engine="sched", race=True, instrument=["rtcm/handler/handler.go", "rtcm/pushback/byte_channel.go"],
             checks=(200, 8000), shards=(2, 16), tests=["stream"]),
@@ -151,6 +154,7 @@ PROPS["C03"] = {
     "legs": [
         Leg("lengths", "c03", "^TestLengths$", engine="enumerate", rapid=False, shards=(1, 1), tests=["lengths"]),
         Leg("stream", "c03", "^TestStream$", checks=(8000, 150000), shards=(2, 16), tests=["stream"]),
+        Leg("parallel", "c03", "^TestParallel$", engine="sched", checks=(500, 10000), shards=(2, 16), tests=["parallel"], replay_attempts=5),
     ],
 }
 
@@ -331,6 +335,7 @@ PROPS["C09"] = {
     "min_evals": {"quick": 800, "thorough": 30000},
     "legs": [
         Leg("pipeline", "c09", "^TestPipeline$", engine="sched", checks=(500, 15000), shards=(2, 16), tests=["pipeline"]),
+        Leg("long-stall", "c09", "^TestLongStall$", engine="sched", checks=(1, 3), shards=(2, 4), tests=["long-stall"]),
         Leg("pipeline-race", "c09", "^TestPipeline$", engine="sched", race=True, checks=(200, 8000), shards=(2, 16), tests=["pipeline"]),
         Leg("pipeline-yield-race", "c09", "^TestPipeline$", engine="sched", race=True, instrument=_PIPE_FILES, checks=(150, 8000), shards=(2, 16), tests=["pipeline"]),
     ],
@@ -387,6 +392,7 @@ PROPS["C10"] = {
     "min_evals": {"quick": 300, "thorough": 20000},
     "legs": [
         Leg("filter", "c10", "^TestFilter$", checks=(120, 8000), shards=(4, 16), tests=["filter"]),
+        Leg("long-stall", "c10", "^TestLongStall$", engine="sched", checks=(1, 3), shards=(2, 4), tests=["long-stall"]),
         Leg("filter-race", "c10", "^TestFilter$", engine="sched", race=True, checks=(60, 3000), shards=(2, 16), tests=["filter"]),
     ],
 }
